@@ -86,7 +86,7 @@ def main():
     r, dumps = pipecheck.design_run("%s_%s" % (prop, name), consts, DESIGN_INVS, timeout=7200)
     states += r.distinct
     trans += r.generated
-    per_cfg[name] = {"states": r.distinct, "transitions": r.generated, "terminal_scenarios": len(dumps), "wall_s": round(r.wall, 1),
+    per_cfg[name] = {"states": r.distinct, "transitions": r.generated, "terminal_scenarios": getattr(r, "dump_total", len(dumps)), "terminal_scenarios_kept_for_replay": len(dumps), "wall_s": round(r.wall, 1),
                      "reused_identical_tlc_run": bool(getattr(r, "cached", False))}
     if r.error or not r.finished or r.rc not in (0, 12):
       chk.machinery("TLC failed on %s (rc=%s): %s" % (name, r.rc, r.out[-600:]))
@@ -188,12 +188,12 @@ def main():
       "step_level_traces_accepted": nacc, "step_level_traces_rejected": len(rejected), "hook_events_validated": nev,
       "random_larger_graphs": sum(1 for r in results if r["tag"] == "random" and r.get("unreal") is None),
       "fixture_model_x_recipe_pairs": sum(1 for r in results if r["tag"].startswith("fixture")),
-      "terminal_scenarios_enumerated": len(all_dumps),
+      "terminal_scenarios_enumerated": sum(v.get("terminal_scenarios", 0) for k, v in per_cfg.items() if k not in ("random_from", "fixtures_from")),
       "evaluations": len(results), "distinct_nontrivial": nt,
       "rule": "scenario = (float graph, mode per op, I/O modes); enumerated exhaustively by TLC within each config's bound, "
               "plus seeded random graphs of 3-9 ops; distinct by canonical scenario JSON; non-trivial = at least one operator "
               "or the model I/O is in a quantised mode",
-      "exhaustive": len(chosen) == len(all_dumps),
+      "exhaustive": len(chosen) == sum(v.get("terminal_scenarios", 0) for k, v in per_cfg.items() if k not in ("random_from", "fixtures_from")),
       "configs": per_cfg, "outcomes": outcomes, "impl_wall_s": round(t_impl, 1),
       "observed_clauses": spec["clauses"], "design_invariants": DESIGN_INVS,
       "samples": [dict(scenario=r["scn"], outcome=r["outcome"], why=r["why"], concrete_ops=r.get("codes")) for r in results[:2] + results[-2:]],
